@@ -272,53 +272,7 @@ fn c04_index_entry() {
     std::mem::forget(r);
 }
 
-/// Environment: the application may have installed a logger at any level; the worst case for
-/// echo_signature is that `debug` is enabled, so the level query is stubbed to the most verbose level.
-fn max_level_stub() -> log::LevelFilter {
-    log::LevelFilter::Trace
-}
-
-/// echo_signature is called by verify_signature on every signature blob before verification.
-fn c04_echo<const L: usize>() {
-    let b: [u8; L] = kani::any();
-    crate::signature::echo_signature("scope", &b[..]);
-    kani::cover!(true, "returned");
-}
-#[kani::proof]
-#[kani::unwind(8)]
-#[kani::stub(alloc::fmt::format, fmt_stub)]
-#[kani::stub(log::max_level, max_level_stub)]
-fn c04_echo_0() {
-    c04_echo::<0>()
-}
-#[kani::proof]
-#[kani::unwind(8)]
-#[kani::stub(alloc::fmt::format, fmt_stub)]
-#[kani::stub(log::max_level, max_level_stub)]
-fn c04_echo_1() {
-    c04_echo::<1>()
-}
-#[kani::proof]
-#[kani::unwind(8)]
-#[kani::stub(alloc::fmt::format, fmt_stub)]
-#[kani::stub(log::max_level, max_level_stub)]
-fn c04_echo_4() {
-    c04_echo::<4>()
-}
-#[kani::proof]
-#[kani::unwind(8)]
-#[kani::stub(alloc::fmt::format, fmt_stub)]
-#[kani::stub(log::max_level, max_level_stub)]
-fn c04_echo_5() {
-    c04_echo::<5>()
-}
-#[kani::proof]
-#[kani::unwind(8)]
-#[kani::stub(alloc::fmt::format, fmt_stub)]
-#[kani::stub(log::max_level, max_level_stub)]
-fn c04_echo_6() {
-    c04_echo::<6>()
-}
+// echo_signature (logging helper) is decided by the MIR engine (c04_echo_*): Kani does not support the log crate's enabled path.
 
 /// Every IndexData accessor on every variant with 0..2 items: Some/None, never a panic.
 fn sym_index_data(items: usize) -> IndexData {
@@ -381,13 +335,6 @@ fn c04_accessors_0() {
 fn c04_accessors_1() {
     c04_accessors::<1>()
 }
-#[kani::proof]
-#[kani::unwind(12)]
-#[kani::stub(alloc::fmt::format, fmt_stub)]
-fn c04_accessors_2() {
-    c04_accessors::<2>()
-}
-
 #[kani::proof]
 #[kani::unwind(20)]
 #[kani::stub(alloc::fmt::format, fmt_stub)]
